@@ -137,6 +137,8 @@ def tr(node, env):
             tn = _dotted(t)
             if tn == "int":
                 return ("isInt", f)
+            if tn == "bool":
+                return ("isBool", f)
             if tn == "str":
                 return ("isStr", f)
             if tn == "Path":
@@ -144,6 +146,8 @@ def tr(node, env):
             if isinstance(t, ast.Tuple) and sorted(_dotted(e) or "?" for e in t.elts) == ["float", "int"]:
                 return ("isNum", f)
             raise Unavailable(f"isinstance against `{_src(t)}`")
+        if fn == "math.isfinite" and len(node.args) == 1:
+            return ("isFinite", _need_field(node.args[0]))
         if fn == "set().intersection" and len(node.args) == 1:
             inner = node.func.value
             other = node.args[0]
@@ -183,9 +187,19 @@ def _all_idx(gen):
     var = g.target.id
     f = _need_field(g.iter)
     e = gen.elt
-    if not (isinstance(e, ast.BoolOp) and isinstance(e.op, ast.And) and len(e.values) == 2):
+    if not (isinstance(e, ast.BoolOp) and isinstance(e.op, ast.And) and len(e.values) in (2, 3)):
         raise Unavailable(f"index test `{_src(e)}`")
-    a, b = e.values
+    a, b = e.values[0], e.values[-1]
+    strict = False
+    if len(e.values) == 3:
+        # `… and not isinstance(i, bool) and …`: Python bools are excluded from the int instances
+        m = e.values[1]
+        ok = (isinstance(m, ast.UnaryOp) and isinstance(m.op, ast.Not) and isinstance(m.operand, ast.Call)
+              and _dotted(m.operand.func) == "isinstance" and len(m.operand.args) == 2 and not m.operand.keywords
+              and isinstance(m.operand.args[0], ast.Name) and m.operand.args[0].id == var and _dotted(m.operand.args[1]) == "bool")
+        if not ok:
+            raise Unavailable(f"index test `{_src(m)}`")
+        strict = True
     if not (isinstance(a, ast.Call) and _dotted(a.func) == "isinstance" and len(a.args) == 2 and not a.keywords
             and isinstance(a.args[0], ast.Name) and a.args[0].id == var and _dotted(a.args[1]) == "int"):
         raise Unavailable(f"index type test `{_src(a)}`")
@@ -194,7 +208,7 @@ def _all_idx(gen):
         raise Unavailable(f"index range test `{_src(b)}`")
     lo = _int_lit(b.left)
     hi = _need_field(b.comparators[1])
-    return ("allIdx", f, CMP[type(b.ops[0])], lo, CMP[type(b.ops[1])], hi)
+    return ("allIdxStrict" if strict else "allIdx", f, CMP[type(b.ops[0])], lo, CMP[type(b.ops[1])], hi)
 
 
 INT_GUARDED = set()     # fields whose `isinstance(.., int)` is established by an early raise (filled by extract_post_init)
@@ -643,7 +657,7 @@ def _lean_v(v):
 
 def _lean_expr(e):
     k = e[0]
-    if k in ("truthy", "isNone", "isInt", "isNum", "isStr", "isPath", "isCallable"):
+    if k in ("truthy", "isNone", "isInt", "isBool", "isFinite", "isNum", "isStr", "isPath", "isCallable"):
         return f"(.{k} .{e[1]})"
     if k == "cmp0":
         return f"(.cmp0 .{e[1]} .{e[2]})"
@@ -651,8 +665,8 @@ def _lean_expr(e):
         return f"(.notIn .{e[1]} [{', '.join(_lean_str(s) for s in e[2])}])"
     if k == "overlap":
         return f"(.overlap .{e[1]} .{e[2]})"
-    if k == "allIdx":
-        return f"(.allIdx .{e[1]} .{e[2]} {_lean_int(e[3])} .{e[4]} .{e[5]})"
+    if k in ("allIdx", "allIdxStrict"):
+        return f"(.{k} .{e[1]} .{e[2]} {_lean_int(e[3])} .{e[4]} .{e[5]})"
     if k == "ltAdd":
         return f"(.ltAdd .{e[1]} .{e[2]} .{e[3]} {_lean_int(e[4])})"
     if k == "not":
